@@ -420,6 +420,14 @@ bool SGXMLScanner::scanNext(XMLPScanToken& token)
     //  In all of the error processing below, the emitError() call MUST come
     //  before the flush of the reader mgr, or it will fail because it tries
     //  to find out the position in the XML source of the error.
+    catch(const EndOfEntityException& toCatch)
+    {
+        // An entity ended inside the markup or character data scanned above
+        // (scanContent() handles this in its loop): report the end of the
+        // entity reference and go on with the next call.
+        if (fDocHandler)
+            fDocHandler->endEntityReference(toCatch.getEntity());
+    }
     catch(const XMLErrs::Codes)
     {
         // This is a 'first failure' exception, so return failure
